@@ -1,0 +1,61 @@
+//go:build verif
+
+package time
+
+// Contracts for the deductive verification in /verif (comment-only file).
+// inst(t) is the abstract instant of a time (assumed contracts of package time).
+
+//@ specfn in64(v int) bool = MIN64 <= v && v <= MAX64
+//@ specfn isArith(op int) bool = op == syntax.PLUS || op == syntax.MINUS || op == syntax.SLASH || op == syntax.SLASHSLASH
+
+// Written-order rule: with side == Left the expression is  d op y ; with side == Right it is  y op d.
+// starlark.Binary offers the operation to the left operand first, so a Duration receiver is
+// asked with side == Right and a Duration argument only for operators the left Duration declined.
+//@ func Duration.Binary
+//@   prop C19
+//@   requires y != nil
+//@   requires side == starlark.Right && typeis(y, Duration) ==> !isArith(op)
+//@   nopanic
+//@   ensures dd_plus: op == syntax.PLUS && typeis(y, Duration) ==> err == nil && typeis(result0, Duration) && (in64(d + as(y, Duration)) ==> as(result0, Duration) == d + as(y, Duration))
+//@   ensures dt_plus: op == syntax.PLUS && typeis(y, Time) ==> err == nil && typeis(result0, Time) && inst(as(result0, Time)) == inst(as(y, Time)) + d
+//@   ensures dd_minus: op == syntax.MINUS && typeis(y, Duration) ==> err == nil && typeis(result0, Duration) && (in64(d - as(y, Duration)) ==> as(result0, Duration) == d - as(y, Duration))
+//@   ensures d_minus_other: op == syntax.MINUS && !typeis(y, Duration) ==> result0 == nil
+//@   ensures dd_div: op == syntax.SLASH && typeis(y, Duration) ==> (as(y, Duration) == 0 ==> err != nil) && (as(y, Duration) != 0 ==> err == nil && typeis(result0, starlark.Float))
+//@   ensures di_div: op == syntax.SLASH && typeis(y, starlark.Int) && side == starlark.Left && err == nil ==> typeis(result0, Duration) && val(as(y, starlark.Int)) != 0 && in64(val(as(y, starlark.Int))) && (in64(tdivm(d, val(as(y, starlark.Int)))) ==> as(result0, Duration) == tdivm(d, val(as(y, starlark.Int))))
+//@   ensures di_div_zero: op == syntax.SLASH && typeis(y, starlark.Int) && val(as(y, starlark.Int)) == 0 ==> err != nil
+//@   ensures num_div_reversed: op == syntax.SLASH && side == starlark.Right && (typeis(y, starlark.Int) || typeis(y, starlark.Float)) ==> result0 == nil
+//@   ensures df_div: op == syntax.SLASH && typeis(y, starlark.Float) && side == starlark.Left && err == nil ==> typeis(result0, Duration) && !(as(y, starlark.Float) == 0.0)
+//@   ensures dd_floordiv: op == syntax.SLASHSLASH && typeis(y, Duration) ==> (as(y, Duration) == 0 ==> err != nil) && (as(y, Duration) != 0 ==> err == nil && typeis(result0, starlark.Int) && (in64(tdivm(d, as(y, Duration))) ==> val(as(result0, starlark.Int)) == tdivm(d, as(y, Duration))))
+//@   ensures floordiv_other: op == syntax.SLASHSLASH && !typeis(y, Duration) ==> result0 == nil
+//@   ensures di_mul: op == syntax.STAR && typeis(y, starlark.Int) && err == nil ==> typeis(result0, Duration) && in64(val(as(y, starlark.Int))) && (in64(d * val(as(y, starlark.Int))) ==> as(result0, Duration) == d * val(as(y, starlark.Int)))
+//@   ensures mul_other: op == syntax.STAR && !typeis(y, starlark.Int) ==> result0 == nil
+//@   ensures plus_other: op == syntax.PLUS && !typeis(y, Duration) && !typeis(y, Time) ==> result0 == nil
+//@   ensures div_other: op == syntax.SLASH && !typeis(y, Duration) && !typeis(y, starlark.Int) && !typeis(y, starlark.Float) ==> result0 == nil
+//@   ensures other_ops: !isArith(op) && op != syntax.STAR ==> result0 == nil && err == nil
+
+//@ func Time.Binary
+//@   prop C19
+//@   requires y != nil
+//@   requires side == starlark.Right && typeis(y, Time) ==> op != syntax.MINUS
+//@   nopanic
+//@   ensures td_plus: op == syntax.PLUS && typeis(y, Duration) ==> err == nil && typeis(result0, Time) && inst(as(result0, Time)) == inst(t) + as(y, Duration)
+//@   ensures td_minus: op == syntax.MINUS && typeis(y, Duration) && side == starlark.Left ==> err == nil && typeis(result0, Time) && (as(y, Duration) != MIN64 ==> inst(as(result0, Time)) == inst(t) - as(y, Duration))
+//@   ensures dt_minus_rejected: op == syntax.MINUS && typeis(y, Duration) && side == starlark.Right ==> result0 == nil
+//@   ensures tt_minus: op == syntax.MINUS && typeis(y, Time) ==> err == nil && typeis(result0, Duration) && (in64(inst(t) - inst(as(y, Time))) ==> as(result0, Duration) == inst(t) - inst(as(y, Time)))
+//@   ensures plus_other: op == syntax.PLUS && !typeis(y, Duration) ==> result0 == nil && err == nil
+//@   ensures minus_other: op == syntax.MINUS && !typeis(y, Duration) && !typeis(y, Time) ==> result0 == nil && err == nil
+//@   ensures other_ops: op != syntax.PLUS && op != syntax.MINUS ==> result0 == nil && err == nil
+
+//@ func Duration.Cmp
+//@   prop C19 C11
+//@   requires typeis(v, Duration)
+//@   nopanic
+//@   ensures err == nil
+//@   ensures (d < as(v, Duration) ==> result0 == -1) && (d == as(v, Duration) ==> result0 == 0) && (d > as(v, Duration) ==> result0 == 1)
+
+//@ func Time.Cmp
+//@   prop C19 C11
+//@   requires typeis(yV, Time)
+//@   nopanic
+//@   ensures err == nil
+//@   ensures (inst(t) < inst(as(yV, Time)) ==> result0 == -1) && (inst(t) == inst(as(yV, Time)) ==> result0 == 0) && (inst(t) > inst(as(yV, Time)) ==> result0 == 1)
